@@ -37,6 +37,12 @@ CANARIES = [
     ('c13-harmless-rename', 'C13', 'mindsdb_sql/planner/utils.py',
      "        array = []\n        for arg in node.args:\n            node_out = query_traversal(arg, callback, parent_query=parent_query) or arg\n            array.append(node_out)\n        node.args = array",
      "        new_args = []\n        for a in node.args:\n            replaced = query_traversal(a, callback, parent_query=parent_query)\n            new_args.append(replaced or a)\n        node.args = new_args", None),
+    ('c12-pop-last', 'C12', 'mindsdb_sql/planner/utils.py', "value = params.pop(0)", "value = params.pop()", 'C12.fill'),
+    ('c12-no-copy', 'C12', 'mindsdb_sql/planner/utils.py', "    params = copy.deepcopy(params)\n\n    def params_replace", "    def params_replace", 'C12.fill'),
+    ('c12-count-le', 'C12', 'mindsdb_sql/planner/query_prepare.py', "if len(params) != len(stmt.params):", "if len(params) < len(stmt.params):", 'C12.count'),
+    ('c12-collect-constants', 'C12', 'mindsdb_sql/planner/utils.py', "        if isinstance(node, ast.Parameter):\n            params.append(node)\n            return node",
+     "        if isinstance(node, (ast.Parameter, ast.NullConstant)):\n            params.append(node)\n            return node", 'C12.collect'),
+    ('c12-prepare-no-copy', 'C12', 'mindsdb_sql/planner/query_prepare.py', "        query = copy.deepcopy(query)\n\n        params = utils.get_query_params(query)", "        params = utils.get_query_params(query)", 'C12.prepare'),
 ]
 
 
